@@ -16,7 +16,7 @@ def toAns : QR Result → Ans
 
 /-- `liftChild` when the span is the hull of the grandchildren -/
 def liftChildP (rp : RPar) (c : Child) : RChild :=
-  ⟨c.guid, c.kind, c.start, c.stop, c.idents, c.gcs.map (liftG rp c.kind)⟩
+  ⟨c.guid, c.kind, c.start, c.stop, c.idents, c.gcs.map (liftG rp)⟩
 
 theorem liftChild_eq (rp : RPar) (c : Child) (h : ChildHull c) : liftChild rp c = .ok (liftChildP rp c) := by
   unfold liftChild; rw [h.1]; rfl
@@ -89,7 +89,7 @@ theorem sortByGuid_eq {A B : List RChild} (hp : A.Perm B) (hnd : (B.map (·.guid
 /-- members: what the model rebuilds on its parent equals, in normal form, what the spec expects on a parent with
     the same normal form -/
 theorem liftChildP_norm_eq (rp rp' : RPar) (hrp : rp.norm = rp'.norm) (c : Child)
-    (hseq : ∀ g ∈ c.gcs, (liftG rp c.kind g).mseq.norm = (expectMSeq rp g).norm) :
+    (hseq : ∀ g ∈ c.gcs, (memberSeq rp g).norm = (expectMSeq rp g).norm) :
     (liftChildP rp c).norm = (expectChild rp' c).norm := by
   unfold liftChildP expectChild RChild.norm
   simp only [List.map_map]
@@ -97,9 +97,7 @@ theorem liftChildP_norm_eq (rp rp' : RPar) (hrp : rp.norm = rp'.norm) (c : Child
   apply List.map_congr_left
   intro g hg
   simp only [Function.comp, RGChild.norm, expectGChild, liftG]
-  have := hseq g hg
-  simp only [liftG] at this
-  rw [this, expectMSeq_congr hrp]
+  rw [hseq g hg, expectMSeq_congr hrp]
 
 theorem result_norm_eq (keptM keptS : List Child) (hperm : keptM.Perm keptS)
     (hnd : (keptS.map Child.guid).Nodup) (rp rp' : RPar) (hrp : rp.norm = rp'.norm)
